@@ -4,7 +4,7 @@
 (* duplicate id, conflicting definitions).                                  *)
 EXTENDS SoftCollection, Json, SequencesExt
 
-CONSTANTS MaxItems
+CONSTANTS MaxItems, SetSrcOn   \* SetSrcOn: the sources whose field x the caller modifies later
 
 A(k, n)  == [kind |-> "attr", k |-> k, null |-> n, to1 |-> FALSE, tt |-> ""]
 R(o, t)  == [kind |-> "rel", k |-> "", null |-> FALSE, to1 |-> o, tt |-> t]
@@ -17,15 +17,18 @@ TBase  == [name |-> "ct",  fields |-> [x |-> A("string", FALSE), n |-> A("int", 
 TOther == [name |-> "ct2", fields |-> [x |-> A("int", FALSE), z |-> A("string", FALSE), m |-> R(FALSE, "tt")]]
 
 Srcs0 == <<
-  [id |-> "1", name |-> "ct", fields |-> TBase.fields,
+  [id |-> "1", name |-> "ct", shared |-> FALSE, fields |-> TBase.fields,
    vals |-> [x |-> V(1), n |-> NilV, r |-> Ids(<<"a">>), m |-> Ids(<<"b", "a">>)]],
-  [id |-> "2", name |-> "narrow", fields |-> [x |-> A("string", FALSE)], vals |-> [x |-> V(2)]],
-  [id |-> "1", name |-> "wide",
+  [id |-> "2", name |-> "narrow", shared |-> FALSE, fields |-> [x |-> A("string", FALSE)], vals |-> [x |-> V(2)]],
+  [id |-> "1", name |-> "wide", shared |-> FALSE,
    fields |-> [x |-> A("string", FALSE), y |-> A("bool", FALSE), q |-> R(FALSE, "tt")],
    vals |-> [x |-> V(1), y |-> V(1), q |-> Ids(<<"b">>)]],
-  [id |-> "3", name |-> "conflict",
+  [id |-> "3", name |-> "conflict", shared |-> FALSE,
    fields |-> [x |-> A("int", FALSE), n |-> A("int", FALSE), r |-> R(FALSE, "tt")],
-   vals |-> [x |-> V(1), n |-> V(1), r |-> Ids(<<"a">>)]]
+   vals |-> [x |-> V(1), n |-> V(1), r |-> Ids(<<"a">>)]],
+  \* a soft resource created on the collection's own *Type
+  [id |-> "2", name |-> "ct", shared |-> TRUE, fields |-> TBase.fields,
+   vals |-> [x |-> V(2), n |-> V(1), r |-> Ids(<<>>), m |-> Ids(<<"a">>)]]
 >>
 
 NoDef == A("", FALSE)
@@ -43,7 +46,7 @@ Alphabet ==
                     <<"w", A("invalid", FALSE)>>, <<"n", A("int", TRUE)>>, <<"z", A("int", TRUE)>> } }
   \cup { Op("AddRel", NoTyp, 0, "", p[1], p[2], NoVal) :
             p \in { <<"q", R(FALSE, "tt")>>, <<"r", R(TRUE, "tt")>>, <<"", R(TRUE, "tt")>>, <<"v", R(TRUE, "")>> } }
-  \cup { Op("SetSrc", NoTyp, s, "", "x", NoDef, V(r)) : s \in 1..Len(Srcs0), r \in {1, 2} }
+  \cup { Op("SetSrc", NoTyp, s, "", "x", NoDef, V(r)) : s \in SetSrcOn, r \in {1, 2} }
   \cup { Op("SetSrc", NoTyp, 1, "", "m", NoDef, Ids(<<"c">>)) }
 
 VARIABLES st, ret, hist
